@@ -171,6 +171,30 @@ func run(repo, hooks, out string) error {
 						}
 						return true
 					})
+					if found || strings.HasSuffix(rel, ".gen.go") {
+						return found
+					}
+					// hand-written files also yield in front of every statement that touches memory
+					// another request can see: a field reached through a pointer, or a package-level
+					// variable (a preemption between two such statements is what a second core or the
+					// Go scheduler gives a real server)
+					ast.Inspect(n, func(x ast.Node) bool {
+						switch y := x.(type) {
+						case *ast.FuncLit:
+							return false
+						case *ast.SelectorExpr:
+							if sel := p.TypesInfo.Selections[y]; sel != nil && sel.Kind() == types.FieldVal {
+								if _, ptr := p.TypesInfo.TypeOf(y.X).Underlying().(*types.Pointer); ptr || sel.Indirect() {
+									found = true
+								}
+							}
+						case *ast.Ident:
+							if v, ok := p.TypesInfo.Uses[y].(*types.Var); ok && v.Pkg() != nil && v.Parent() == v.Pkg().Scope() {
+								found = true
+							}
+						}
+						return true
+					})
 					return found
 				}
 				var instrument func(list []ast.Stmt) []ast.Stmt
@@ -195,6 +219,60 @@ func run(repo, hooks, out string) error {
 							}
 							hit = hit || usesSync(x.Cond)
 						}
+						// lock sections: no parking between Lock and Unlock (see verifhook.LockDepth)
+						lockDelta := func(e ast.Expr) int {
+							call, ok := e.(*ast.CallExpr)
+							if !ok {
+								return 0
+							}
+							sel, ok := call.Fun.(*ast.SelectorExpr)
+							if !ok {
+								return 0
+							}
+							obj := p.TypesInfo.ObjectOf(sel.Sel)
+							if obj == nil || obj.Pkg() == nil || obj.Pkg().Path() != "sync" {
+								return 0
+							}
+							switch sel.Sel.Name {
+							case "Lock", "RLock":
+								return 1
+							case "Unlock", "RUnlock":
+								return -1
+							case "Do":
+								return 2
+							}
+							return 0
+						}
+						locked := func(d int, deferred bool) ast.Stmt {
+							call := &ast.CallExpr{
+								Fun:  &ast.SelectorExpr{X: ast.NewIdent("verifhook"), Sel: ast.NewIdent("Locked")},
+								Args: []ast.Expr{&ast.BasicLit{Kind: token.INT, Value: fmt.Sprint(d)}},
+							}
+							if deferred {
+								return &ast.DeferStmt{Call: call}
+							}
+							return &ast.ExprStmt{X: call}
+						}
+						var pre, after []ast.Stmt
+						switch x := st.(type) {
+						case *ast.ExprStmt:
+							switch lockDelta(x.X) {
+							case 1:
+								after = append(after, locked(1, false))
+							case -1:
+								after = append(after, locked(-1, false))
+							case 2:
+								pre = append(pre, locked(1, false))
+								after = append(after, locked(-1, false))
+							}
+						case *ast.DeferStmt:
+							if lockDelta(x.Call) == -1 {
+								after = append(after, locked(-1, true))
+							}
+						}
+						if len(after) > 0 {
+							changed = true
+						}
 						if hit {
 							pos := p.Fset.Position(st.Pos())
 							out = append(out, &ast.ExprStmt{X: &ast.CallExpr{
@@ -204,7 +282,9 @@ func run(repo, hooks, out string) error {
 							changed = true
 							nyields++
 						}
+						out = append(out, pre...)
 						out = append(out, st)
+						out = append(out, after...)
 					}
 					return out
 				}
